@@ -6,6 +6,7 @@ CONSTANTS
   UseQueue = TRUE
   SkipQueue = TRUE
   Faults = FALSE
+  FaultKinds = {"crash", "reject", "third"}
   MaxC = 9
   RepStatuses = {"SUCCESSFUL", "FAILED"}
   Atomic = TRUE
